@@ -97,7 +97,31 @@ def rel(read, p):
     world asks for relative names"""
     if p is not None and read.get("rel") and p.startswith("$ROOT/"):
         return read.get("rel_dot", "") + p[len("$ROOT/"):]
+    if p is not None and read.get("dotdot"):
+        # the caller reaches the tree through a symbolic link to a directory and "..": $ROOT/cur -> $ROOT/rel/v2
+        if p == "$ROOT/rel":
+            return "$ROOT/cur/.."
+        if p.startswith("$ROOT/rel/"):
+            return "$ROOT/cur/../" + p[len("$ROOT/rel/"):]
     return p
+
+
+def apply_dotdot(world):
+    """moves the whole tree below $ROOT/rel and lets the caller spell every directory as $ROOT/cur/../<dir>,
+    where cur is a symbolic link to the directory rel/v2: only the kernel knows where such a name leads.
+    The original locations keep decoy files with other values."""
+    import copy
+    import json
+    decoys = copy.deepcopy(world["nodes"])
+    for n in decoys:
+        for e in n.get("entries", []):
+            if e[2] is not None:
+                e[2] = "decoy-" + e[2]
+    w = json.loads(json.dumps(world).replace("$ROOT", "$ROOT/rel"))
+    w["read"].setdefault("root", "$ROOT/rel")
+    w["read"]["dotdot"] = True
+    w["nodes"] += decoys + [{"p": "$ROOT/rel/v2", "t": "d"}, {"p": "$ROOT/cur", "t": "l", "to": "$ROOT/rel/v2"}]
+    return w
 
 
 def single_file_world(rng, w):
@@ -163,7 +187,7 @@ def option_string(read):
     items = []
     if o.get("root_prefix"):
         rp = read.get("root", "$ROOT")
-        items.append("ROOT_PREFIX=" + ((rp[len("$ROOT/"):] if rp != "$ROOT" else ".") if read.get("rel") else rp))
+        items.append("ROOT_PREFIX=" + ((rp[len("$ROOT/"):] if rp != "$ROOT" else ".") if read.get("rel") else rel(read, rp)))
     if o.get("parsing_dirs"):
         items.append("PARSING_DIRS=" + ":".join(dirarg(read, d) for d in o["parsing_dirs"]))
     if o.get("config_dirs"):
@@ -182,7 +206,7 @@ def model_of(world, mask_first=True):
     return m5(tree, layers_of(read), name, read.get("suffix"), postfixes_of(read), mask_first=mask_first)
 
 
-def gen_layered_world(rng, i, two_layer=None, want_files=True, small=False, allow_refuse=True, allow_nosuffix=True):
+def gen_layered_world(rng, i, two_layer=None, want_files=True, small=False, allow_refuse=True, allow_nosuffix=True, allow_repeat=False, allow_dotdot=False):
     """Generates a tree of DESIGN.md 5.3 plus the parameters of one layered read."""
     read = {"delim": "=", "comment": "#", "opts": {}}
     R = "$ROOT"
@@ -232,6 +256,12 @@ def gen_layered_world(rng, i, two_layer=None, want_files=True, small=False, allo
         else:
             nlayers = rng.pick([1, 2, 3, 3, 3, 4, 4, 6])
             read["opts"]["parsing_dirs"] = [R + "/%s" % d for d in rng.sample(["usr/lib/p", "run/p", "etc/p", "opt/p", "v", "e", "l3", "k=v", "sp ace/p"], nlayers)]
+            if nlayers >= 2 and rng.chance(0.06) and allow_repeat:
+                # a directory listed twice (A:B:A): it acts at its LAST position
+                pd = read["opts"]["parsing_dirs"]
+                k = rng.randrange(len(pd) - 1)
+                pd.insert(rng.randrange(k + 2, len(pd) + 1), pd[k])
+                read["repeated_layer"] = True
             if rng.chance(0.06):
                 # one more layer that cannot hold anything: a component of its path is a regular file
                 read["opts"]["parsing_dirs"].insert(rng.randrange(nlayers + 1), R + "/afile/sub")
@@ -280,8 +310,8 @@ def gen_layered_world(rng, i, two_layer=None, want_files=True, small=False, allo
     dropin_only = (not read["ep"].startswith("readDirs")) and not read.get("name")
     for li, layer in enumerate(layers):
         st = MAIN_STATES[(pat >> (2 * li)) & 3] if li < 3 else rng.pick(MAIN_STATES)
-        if dropin_only or not layer.startswith("$ROOT") or layer.endswith("/afile/sub"):
-            st = "absent"     # no main file is defined in this mode / layer outside the sandbox / below a regular file
+        if dropin_only or not layer.startswith("$ROOT") or layer.endswith("/afile/sub") or layer in layers[:li]:
+            st = "absent"     # no main file is defined in this mode / layer outside the sandbox / below a regular file / listed before
         p = norm("%s/%s%s" % (layer, eff_name, suf))
         if st == "regular":
             fid += 1
@@ -305,7 +335,7 @@ def gen_layered_world(rng, i, two_layer=None, want_files=True, small=False, allo
     pool = list(NAME_POOL)
     for li, layer in enumerate(layers):
         used_here = set()
-        if not layer.startswith("$ROOT") or layer.endswith("/afile/sub"):
+        if not layer.startswith("$ROOT") or layer.endswith("/afile/sub") or layer in layers[:li]:
             continue
         for pf in pfs_eff:
             d = norm("%s/%s%s" % (layer, eff_name, pf))
@@ -358,6 +388,8 @@ def gen_layered_world(rng, i, two_layer=None, want_files=True, small=False, allo
         # relative names: the run's working directory is $ROOT
         read["rel"] = True
         cfg["cwd"] = "$ROOT"
+    elif allow_dotdot and rng.chance(0.06) and all(l.startswith("$ROOT") for l in layers):
+        return apply_dotdot({"kind": "layered", "read": read, "nodes": nodes, "cfg": cfg})
     return {"kind": "layered", "read": read, "nodes": nodes, "cfg": cfg}
 
 
